@@ -29,7 +29,7 @@ def cases(tier, seed):
         for mb, pat, lik, depth, fpv, det in itertools.product([[], [2]], PATTERNS, ["gauss", "fixed", "fixed+learn"], [1, 2, 3], [False, True], [True, False]):
             if pat == "fbm" and not mb:
                 continue
-            if tier == "quick" and rnd.random() < 0.55:
+            if tier == "quick" and rnd.random() < 0.25:
                 continue
             yield {"kind": "single", "mbatch": mb, "pattern": pat, "lik": lik, "depth": depth, "fast_pred_var": fpv, "detach": det, "n": rnd.choice([1, 4, 7]), "m": rnd.choice([1, 3]),
                    "seed": rnd.randrange(10**6)}
